@@ -324,6 +324,52 @@ def r20_6(ctx):
     ctx.floor('R20.6', 'directory creation sites in compile.py', n_mk, 1)
 
 
+def r20_7(ctx):
+    """(a) Publication happens on the SUCCESS path only: every os.replace / os.rename / shutil.move / copy into the cache directory
+    is a statement of the try BODY (after the build ran), never of a `finally` block or an exception handler -- a build whose
+    linker was killed leaves a partial .so in the scratch directory, and publishing from the clean-up code installs it under the
+    final name (loading a truncated .so kills the interpreter with SIGBUS on every later request).
+    (b) No request WAITS for files of other processes without a bound: a `while` loop whose condition looks at the file system
+    (glob / exists / listdir / isdir) and whose body only sleeps can wait forever for the scratch directory of a process that was
+    SIGKILLed (its finally block never ran)."""
+    n = 0
+    for fi in ctx.prog.funcs_in(CP, include_nested=True):
+        for c in ast.walk(fi.node):
+            if not isinstance(c, ast.Call):
+                continue
+            nm = call_name(c) or ''
+            if nm in ('os.replace', 'os.rename', 'shutil.move', 'shutil.copy', 'shutil.copyfile', 'shutil.copy2', 'os.link'):
+                n += 1
+                q, child, where = parent(c), c, None
+                while q is not None and q is not fi.node:
+                    if isinstance(q, ast.Try):
+                        if any(child is s_ or child in ast.walk(s_) for s_ in q.finalbody):
+                            where = 'finally'
+                        elif any(child is h or child in ast.walk(h) for h in q.handlers):
+                            where = 'except'
+                        if where:
+                            break
+                    q = parent(q)
+                if where:
+                    ctx.violated('R20.7', fi.qual, '%s in a `%s` block' % (src(c)[:70], where), c,
+                                 'files are moved into the cache directory from clean-up code, i.e. also when the build FAILED: a linker killed after '
+                                 'writing part of its output leaves a partial .so that is then published under the final name; importing a truncated '
+                                 'shared object does not raise ImportError, it kills the interpreter (SIGBUS) on every later request for that form')
+                else:
+                    ctx.met('R20.7', fi.qual, src(c)[:80], c, 'publication on the success path')
+        for w in [x for x in ast.walk(fi.node) if isinstance(x, ast.While)]:
+            probes = [c for c in ast.walk(w.test) if isinstance(c, ast.Call) and (call_name(c) or '').split('.')[-1] in ('glob', 'iglob', 'exists', 'isdir', 'isfile', 'listdir', 'scandir')]
+            if not probes:
+                continue
+            bounded = any(isinstance(x, (ast.Break, ast.Return, ast.Raise)) for x in ast.walk(ast.Module(w.body, [])))
+            ctx.decide('R20.7', fi.qual, 'while %s' % src(w.test)[:80], True if bounded else False, w,
+                       'bounded wait' if bounded else
+                       'the request waits as long as files matching the probe exist: the scratch directory of a build that was SIGKILLed is never '
+                       'removed (its finally block did not run), so every later request for that form hangs forever', definite=True)
+    ctx.floor('R20.7', 'publication sites in compile.py', n, 1)
+
+
 def run(ctx):
     r20(ctx)
     r20_6(ctx)
+    r20_7(ctx)
